@@ -46,6 +46,9 @@ func (e *Envelope) SetPayload(payload any) error {
 	if err != nil {
 		return err
 	}
+	// Canonical JSON leaves control characters in strings as they are, but a
+	// DSSE payload has to be a JSON document every JSON parser can read back
+	encodedBytes = escapeControlCharacters(encodedBytes)
 
 	e.payload = payload
 	e.envelope = &dsse.Envelope{
@@ -54,6 +57,22 @@ func (e *Envelope) SetPayload(payload any) error {
 	}
 
 	return nil
+}
+
+// escapeControlCharacters replaces the control characters in canonical JSON
+// (they can only occur inside strings, there is no whitespace between tokens)
+// by their \u00XX escape sequences.
+func escapeControlCharacters(canonical []byte) []byte {
+	const hexDigits = "0123456789abcdef"
+	escaped := make([]byte, 0, len(canonical))
+	for _, c := range canonical {
+		if c < 0x20 {
+			escaped = append(escaped, '\\', 'u', '0', '0', hexDigits[c>>4], hexDigits[c&0xf])
+		} else {
+			escaped = append(escaped, c)
+		}
+	}
+	return escaped
 }
 
 func (e *Envelope) GetPayload() any {
